@@ -305,3 +305,344 @@ Proof.
     destruct Hin as [Hin|[]]. inversion Hin; subst. repeat split; try lia. exists z. split; [now left | reflexivity].
   - destruct (IH k c y Hin) as (H1 & H2 & z' & H3 & H4). repeat split; auto. exists z'. split; [now right | exact H4].
 Qed.
+
+(* ------------------------------------------------------------------------------------------ *)
+(* statements about the state: first day on which the modelled condition holds                 *)
+
+Lemma auto_sow_spec z s1 s2 p b : z <> 0 ->
+  auto_sow z 0 s1 s2 p b = if (s1 <=? z) && ((b && (p + 4 <? z)) || (z =? s2)) then z else 0.
+Proof.
+  intros Hz. unfold auto_sow. cbn [Z.eqb andb].
+  destruct (s1 <=? z); cbn [andb]; [|reflexivity].
+  destruct (b && (p + 4 <? z)); cbn [orb].
+  - assert (z =? 0 = false) as -> by now apply Z.eqb_neq. rewrite andb_false_r. reflexivity.
+  - cbn [Z.eqb]. rewrite andb_true_r. destruct (z =? s2); reflexivity.
+Qed.
+
+(* the entry is sown on the first day of its window on which the condition holds and that is later than the
+   previous harvest + 4, else on the last day of the window — for every condition function (in particular
+   [fun y => sow_cond (env y)] for any sequence of daily states) *)
+Lemma sow_loop_first trig saat1 saat2 prev : forall fuel z,
+  0 < z -> 0 < saat1 -> saat1 <= saat2 -> z <= saat2 -> saat2 < z + Z.of_nat fuel ->
+  let s := sow_loop trig saat1 saat2 prev fuel z 0 in
+  let lo := Z.max z saat1 in
+  lo <= s <= saat2 /\
+  (forall y, lo <= y < s -> ~ (trig y = true /\ prev + 4 < y)) /\
+  (s < saat2 -> trig s = true /\ prev + 4 < s).
+Proof.
+  induction fuel as [|fuel IH]; intros z Hz H0 H1 H2 H3; [lia|].
+  cbn [sow_loop]. rewrite auto_sow_spec by lia.
+  assert (Hk : forall f y v, v <> 0 -> sow_loop trig saat1 saat2 prev f y v = v).
+  { induction f as [|f IHf]; intros y v Hv; cbn [sow_loop]; [reflexivity|]. rewrite auto_sow_keeps by exact Hv. now apply IHf. }
+  destruct (saat1 <=? z) eqn:E1; [apply Z.leb_le in E1 | apply Z.leb_gt in E1]; cbn [andb].
+  - destruct (trig z && (prev + 4 <? z)) eqn:E2; cbn [orb].
+    + rewrite Hk by lia. apply andb_true_iff in E2 as [Et Ep]. apply Z.ltb_lt in Ep. cbn zeta.
+      repeat split; try lia; auto; try (intros y Hy; lia).
+    + destruct (z =? saat2) eqn:E3; [apply Z.eqb_eq in E3 | apply Z.eqb_neq in E3].
+      * rewrite Hk by lia. cbn zeta. subst z. repeat split; try lia; try (intros y Hy; lia).
+      * specialize (IH (z + 1) ltac:(lia) H0 H1 ltac:(lia) ltac:(lia)). cbn zeta in IH |- *.
+        destruct IH as (I1 & I2 & I3). split; [lia|]. split; [|intros Hs; apply I3; lia].
+        intros y Hy. destruct (Z.eq_dec y z) as [->|Hne].
+        -- intros [Ht Hp]. rewrite Ht in E2. cbn [andb] in E2. apply Z.ltb_ge in E2. lia.
+        -- apply I2. lia.
+  - specialize (IH (z + 1) ltac:(lia) H0 H1 ltac:(lia) ltac:(lia)). cbn zeta in IH |- *.
+    destruct IH as (I1 & I2 & I3). split; [lia|]. split; [|intros Hs; apply I3; lia].
+    intros y Hy. apply I2. lia.
+Qed.
+
+Lemma auto_harvest_spec z e2 b : z <> 0 ->
+  auto_harvest z 0 e2 b = if b then (z, z) else if z =? e2 - 1 then (z + 1, e2) else (0, e2).
+Proof.
+  intros Hz. unfold auto_harvest. cbn [Z.eqb]. destruct b.
+  - assert (z =? 0 = false) as -> by now apply Z.eqb_neq. now rewrite andb_false_r.
+  - cbn [Z.eqb]. rewrite andb_true_r. reflexivity.
+Qed.
+
+(* the harvest date is the first day (from the day the test starts) on which the condition holds, else the
+   configured latest date *)
+Lemma harvest_loop_first trig : forall fuel z e2,
+  0 < z -> z <= e2 - 1 -> e2 - 1 < z + Z.of_nat fuel ->
+  let '(e, e2') := harvest_loop trig fuel z 0 e2 in
+  z <= e <= e2 /\ (forall y, z <= y < e -> y <= e2 - 1 -> trig y = false) /\ (e < e2 -> trig e = true) /\
+  e2' = (if e <? e2 then e else e2).
+Proof.
+  induction fuel as [|fuel IH]; intros z e2 H0 H1 H2; [lia|].
+  cbn [harvest_loop]. rewrite auto_harvest_spec by lia.
+  assert (Hk : forall f y a b, a <> 0 -> harvest_loop trig f y a b = (a, b)).
+  { induction f as [|f IHf]; intros y a b Ha; cbn [harvest_loop]; [reflexivity|]. rewrite auto_harvest_keeps by exact Ha. now apply IHf. }
+  destruct (trig z) eqn:Et.
+  - rewrite Hk by lia. assert (z <? e2 = true) as -> by (apply Z.ltb_lt; lia).
+    repeat split; try lia; auto; try (intros y Hy; lia).
+  - destruct (z =? e2 - 1) eqn:E; [apply Z.eqb_eq in E | apply Z.eqb_neq in E].
+    + rewrite Hk by lia. replace (z + 1) with e2 by lia. rewrite Z.ltb_irrefl.
+      repeat split; try lia. intros y Hy Hy2. assert (y = z) by lia. now subst.
+    + specialize (IH (z + 1) e2 ltac:(lia) ltac:(lia) ltac:(lia)).
+      destruct (harvest_loop trig fuel (z + 1) 0 e2) as [e e2'].
+      destruct IH as (I1 & I2 & I3 & I4). split; [lia|]. split; [|split; [exact I3 | exact I4]].
+      intros y Hy Hy2. destruct (Z.eq_dec y z) as [->|Hne]; [exact Et | apply I2; lia].
+Qed.
+
+(* ------------------------------------------------------------------------------------------ *)
+(* irrigation deficit, automatic N doses, organic fertiliser (over the reals)                    *)
+
+Lemma in_firstn {A} (x : A) : forall n l, In x (firstn n l) -> In x l.
+Proof. induction n as [|n IH]; intros [|y l]; cbn; try tauto. intros [->|H]; auto. Qed.
+
+Section TriggersR.
+  Local Open Scope R_scope.
+
+  (* with field capacity above the wilting point in every layer, both sums stay non-negative *)
+  Lemma irr_sums_nonneg : forall (ls : list (R * R * R)) first rdz acc,
+    (forall wg w wmin, In (wg, w, wmin) ls -> wmin < w) ->
+    0 <= fst acc -> 0 <= snd acc ->
+    0 <= fst (irr_sums first rdz ls acc) /\ 0 <= snd (irr_sums first rdz ls acc).
+  Proof.
+    induction ls as [|[[wg w] wmin] r IH]; intros first rdz acc Hl Ha Hb; cbn [irr_sums]; [tauto|].
+    assert (Hw : wmin < w) by (apply (Hl wg); now left).
+    set (nfk0 := if first then _ else _). set (defz0 := if first then _ else _).
+    assert (Hd : nfk0 <= 1 -> 0 <= defz0).
+    { unfold nfk0, defz0. cbn. destruct first; intros H.
+      - apply (Rmult_le_compat_r (w - wmin)) in H; [|lra]. unfold Rdiv in H. rewrite Rmult_assoc, Rinv_l in H by lra. lra.
+      - apply (Rmult_le_compat_r (w - wmin)) in H; [|lra]. unfold Rdiv in H. rewrite Rmult_assoc, Rinv_l in H by lra. lra. }
+    cbn [ltb RNum zero one] in *.
+    destruct (RI.ltb_spec nfk0 0) as [H0|H0].
+    - destruct (RI.ltb_spec 1 0) as [H1|H1]; [lra|]. apply IH; cbn [fst snd add RNum]; try lra;
+        try (intros; eapply Hl; right; eassumption);
+        try (apply Rplus_le_le_0_compat; [lra|]; apply Hd; lra).
+    - destruct (RI.ltb_spec 1 nfk0) as [H1|H1]; apply IH; cbn [fst snd add RNum]; try lra;
+        try (intros; eapply Hl; right; eassumption);
+        try (apply Rplus_le_le_0_compat; [lra|]; apply Hd; lra).
+  Qed.
+
+  Lemma irr_state_nonneg (e : irr_env R) :
+    (forall wg w wmin, In (wg, w, wmin) (ie_layers e) -> wmin < w) -> 0 <= snd (irr_state e).
+  Proof.
+    intros H. unfold irr_state.
+    match goal with |- context [irr_sums ?a ?b ?c ?d] =>
+      pose proof (irr_sums_nonneg c a b d) as P; destruct (irr_sums a b c d) as [x y] end.
+    cbn [fst snd] in *. apply P; cbn; try lra.
+    intros wg w wmin Hin. apply (H wg). eapply in_firstn. exact Hin.
+  Qed.
+
+  (* automatic irrigation as a function of the state: applied iff after sowing, inside the stage window, the mean
+     plant-available water of the irrigation depth is below IRRLOW and the two-day forecast is dry; the amount is
+     90 % of the modelled deficit clipped to IRRMAX, never negative *)
+  Lemma auto_irr_state_rule (z saat : Z) (intwick irrst1 irrst2 irrmax : R) (e : irr_env R) amount :
+    auto_irr_state z saat intwick irrst1 irrst2 irrmax e = Some amount ->
+    (0 < saat < z)%Z /\ irrst1 <= intwick < irrst2 + 1 /\
+    fst (irr_state e) < ie_irrlow e /\ ie_rain1 e + ie_rain2 e < 9 / 10 /\
+    amount = Rmin (snd (irr_state e) * (9 / 10)) irrmax /\ amount <= irrmax /\
+    ((forall wg w wmin, In (wg, w, wmin) (ie_layers e) -> wmin < w) -> 0 <= irrmax -> 0 <= amount).
+  Proof.
+    unfold auto_irr_state. intros H. apply auto_irr_rule in H. destruct H as (H1 & H2 & H3 & H4 & H5 & H6).
+    unfold irr_cond in H3. apply andb_true_iff in H3 as [Ha Hb].
+    cbn [ltb RNum] in Ha, Hb.
+    destruct (RI.ltb_spec (fst (irr_state e)) (ie_irrlow e)) as [Ha'|]; [|discriminate].
+    unfold dec in Hb. cbn in Hb. replace (10 ^ Z.of_nat 1)%Z with 10%Z in Hb by reflexivity.
+    destruct (RI.ltb_spec (ie_rain1 e + ie_rain2 e) (9 / 10)) as [Hb'|]; [|discriminate].
+    repeat split; try lia; try lra; auto.
+    intros Hl Hm. apply H6; [now apply irr_state_nonneg | exact Hm].
+  Qed.
+
+  Lemma auto_irr_state_none (z saat : Z) (intwick irrst1 irrst2 irrmax : R) (e : irr_env R) :
+    (~ (0 < saat < z)%Z \/ intwick < irrst1 \/ irrst2 + 1 <= intwick \/ irr_cond e = false) ->
+    auto_irr_state z saat intwick irrst1 irrst2 irrmax e = None.
+  Proof. intros H. apply auto_irr_outside. exact H. Qed.
+End TriggersR.
+
+(* ------------------------------------------------------------------------------------------ *)
+(* automatic fertilisation: organic payload, mineral doses (over the reals)                      *)
+
+Section AutoFertR.
+  Local Open Scope R_scope.
+
+  Definition orgh_fires (e : af_env R) : bool := ae_prev_h e && (ae_z e =? ae_ztdg_prev e)%Z.
+  Definition orgs_date (e : af_env R) (s : af_state R) : Z :=
+    if (ae_z e =? ae_saat e)%Z then (ae_z e + ae_orgdoy e)%Z else as_ztdg s.
+  Definition orgs_fires (e : af_env R) (s : af_state R) : bool :=
+    (0 <? ae_saat e)%Z && (ae_saat e <=? ae_z e)%Z && ae_cur_s e && (ae_z e =? orgs_date e s)%Z.
+
+  (* pools (NFOS[0], NAOS[0], C1[0]) and the ZTDG slot are what the organic steps touch; the mineral steps leave them *)
+  Definition same_pools (s s' : af_state R) : Prop :=
+    as_nfos0 s' = as_nfos0 s /\ as_naos0 s' = as_naos0 s /\ as_c10 s' = as_c10 s /\ as_ztdg s' = as_ztdg s.
+
+  Lemma af_orgh_spec e s :
+    let '(s', ev) := af_orgh e s in
+    as_nfos0 s' = as_nfos0 s + (if orgh_fires e then o_nsas (ae_pay_prev e) else 0) /\
+    as_naos0 s' = as_naos0 s + (if orgh_fires e then o_nlas (ae_pay_prev e) else 0) /\
+    as_dsumm s' = as_dsumm s + (if orgh_fires e then o_ndir (ae_pay_prev e) else 0) /\
+    as_c10 s' = as_c10 s /\ as_ztdg s' = as_ztdg s /\ as_nfertsim s' = as_nfertsim s /\
+    ev = (if orgh_fires e then [(0%Z, o_ndir (ae_pay_prev e))] else []).
+  Proof. unfold af_orgh, orgh_fires. destruct (ae_prev_h e && (ae_z e =? ae_ztdg_prev e)%Z); cbn; repeat split; lra. Qed.
+
+  Lemma af_orgs_spec e s :
+    let fires := ae_cur_s e && (ae_z e =? orgs_date e s)%Z in
+    let '(s', ev) := af_orgs e s in
+    as_nfos0 s' = as_nfos0 s + (if fires then o_nsas (ae_pay_cur e) else 0) /\
+    as_naos0 s' = as_naos0 s + (if fires then o_nlas (ae_pay_cur e) else 0) /\
+    as_c10 s' = (if fires then Rmax 0 (as_c10 s + o_ndir (ae_pay_cur e)) else as_c10 s) /\
+    as_dsumm s' = as_dsumm s /\ as_nfertsim s' = as_nfertsim s /\
+    as_ztdg s' = (if ae_cur_s e then orgs_date e s else as_ztdg s) /\
+    ev = (if fires then [(1%Z, o_ndir (ae_pay_cur e))] else []).
+  Proof.
+    unfold af_orgs, orgs_date. destruct (ae_cur_s e); cbn [andb]; [|cbn; repeat split; lra].
+    destruct (ae_z e =? (if (ae_z e =? ae_saat e)%Z then (ae_z e + ae_orgdoy e)%Z else as_ztdg s))%Z; cbn; repeat split; try lra.
+    destruct (RI.ltb_spec (as_c10 s + o_ndir (ae_pay_cur e)) 0); [rewrite Rmax_left by lra | rewrite Rmax_right by lra]; reflexivity.
+  Qed.
+
+  Lemma dose_pools s d : same_pools s (dose s d).
+  Proof. unfold same_pools, dose; cbn; auto. Qed.
+  Lemma set_ndoy_pools w s v : same_pools s (set_ndoy w s v).
+  Proof. unfold same_pools, set_ndoy; cbn; auto. Qed.
+  Lemma same_pools_trans a b c : same_pools a b -> same_pools b c -> same_pools a c.
+  Proof. unfold same_pools. intros (A1 & A2 & A3 & A4) (B1 & B2 & B3 & B4). repeat split; congruence. Qed.
+  Lemma same_pools_refl a : same_pools a a.
+  Proof. unfold same_pools; auto. Qed.
+
+  Lemma af_min1_spec e d s :
+    let '(s', ev) := af_min1 e d s in
+    same_pools s s' /\ (ev = [] /\ as_nfertsim s' = as_nfertsim s /\ as_dsumm s' = as_dsumm s \/
+                        ev = [(2%Z, d)] /\ as_nfertsim s' = as_nfertsim s + d /\ as_dsumm s' = as_dsumm s + d).
+  Proof.
+    unfold af_min1.
+    repeat match goal with |- context [if ?c then _ else _] => destruct c end;
+      (split; [first [apply same_pools_refl | apply dose_pools | eapply same_pools_trans; [apply dose_pools | apply set_ndoy_pools]] |]);
+      cbn; auto.
+  Qed.
+
+  Lemma af_minn_spec w e ndoy d s :
+    let '(s', ev) := af_minn w e ndoy d s in
+    same_pools s s' /\ (ev = [] /\ as_nfertsim s' = as_nfertsim s /\ as_dsumm s' = as_dsumm s \/
+                        ev = [((w + 1)%Z, d)] /\ as_nfertsim s' = as_nfertsim s + d /\ as_dsumm s' = as_dsumm s + d).
+  Proof.
+    unfold af_minn.
+    repeat match goal with |- context [if ?c then _ else _] => destruct c end;
+      (split; [first [apply same_pools_refl | apply dose_pools | eapply same_pools_trans; [apply dose_pools | apply set_ndoy_pools]] |]);
+      cbn; auto.
+  Qed.
+
+  (* payload of the organic applications: the fast/slow organic pools of the top layer receive exactly the split of
+     the entry's fertiliser, when (and only when) the application is due *)
+  Lemma autofert_org_payload (e : af_env R) (s : af_state R) :
+    let s' := fst (autofert_day e s) in
+    as_nfos0 s' = as_nfos0 s + (if orgh_fires e then o_nsas (ae_pay_prev e) else 0)
+                             + (if orgs_fires e s then o_nsas (ae_pay_cur e) else 0) /\
+    as_naos0 s' = as_naos0 s + (if orgh_fires e then o_nlas (ae_pay_prev e) else 0)
+                             + (if orgs_fires e s then o_nlas (ae_pay_cur e) else 0) /\
+    as_c10 s' = (if orgs_fires e s then Rmax 0 (as_c10 s + o_ndir (ae_pay_cur e)) else as_c10 s).
+  Proof.
+    unfold autofert_day, orgs_fires.
+    pose proof (af_orgh_spec e s) as H0. destruct (af_orgh e s) as [s0 ev0].
+    destruct H0 as (A1 & A2 & _ & A3 & A4 & _).
+    destruct ((0 <? ae_saat e)%Z && (ae_saat e <=? ae_z e)%Z) eqn:G; cbn [andb fst].
+    - pose proof (af_orgs_spec e s0) as H1. destruct (af_orgs e s0) as [s1 ev1]. cbn zeta in H1.
+      destruct H1 as (B1 & B2 & B3 & _).
+      match goal with |- context [af_min1 e ?d s1] => pose proof (af_min1_spec e d s1) as H2; destruct (af_min1 e d s1) as [s2 ev2] end.
+      destruct H2 as [(C1 & C2 & C3 & _) _].
+      match goal with |- context [af_minn 2 e ?n ?d s2] => pose proof (af_minn_spec 2 e n d s2) as H3; destruct (af_minn 2 e n d s2) as [s3 ev3] end.
+      destruct H3 as [(D1 & D2 & D3 & _) _].
+      match goal with |- context [af_minn 3 e ?n ?d s3] => pose proof (af_minn_spec 3 e n d s3) as H4; destruct (af_minn 3 e n d s3) as [s4 ev4] end.
+      destruct H4 as [(E1 & E2 & E3 & _) _]. cbn [fst].
+      unfold orgs_date in *. rewrite A4 in B1, B2, B3. rewrite A3 in B3.
+      rewrite E1, D1, C1, B1, A1, E2, D2, C2, B2, A2, E3, D3, C3, B3.
+      destruct (ae_cur_s e && (ae_z e =? (if (ae_z e =? ae_saat e)%Z then (ae_z e + ae_orgdoy e)%Z else as_ztdg s))%Z); repeat split; lra.
+    - rewrite A1, A2, A3. repeat split; lra.
+  Qed.
+
+  Lemma auto_n_R (ndem nmin : R) : 0 <= auto_n ndem nmin /\ auto_n ndem nmin = Rmax (ndem - nmin) 0.
+  Proof. unfold auto_n; cbn. split; [apply Rmax_r | reflexivity]. Qed.
+
+  (* every mineral dose of the call is max(0, demand - Nmin) of the depth it is compared with (upper 3 dm for the
+     first, rooted depth up to 9 dm for the second and third application), hence >= 0; the organic events carry the
+     directly available N of the fertiliser; NFERTSIM grows by exactly the sum of the mineral doses *)
+  Lemma autofert_doses (e : af_env R) (s : af_state R) : forall k a,
+    In (k, a) (snd (autofert_day e s)) ->
+    (k = 0%Z /\ a = o_ndir (ae_pay_prev e)) \/ (k = 1%Z /\ a = o_ndir (ae_pay_cur e)) \/
+    (0 <= a /\ exists nmin, a = Rmax ((if (k =? 2)%Z then ae_ndem1 e else if (k =? 3)%Z then ae_ndem2 e else ae_ndem3 e) - nmin) 0 /\
+                           (2 <= k <= 4)%Z).
+  Proof.
+    intros k a. unfold autofert_day.
+    pose proof (af_orgh_spec e s) as H0. destruct (af_orgh e s) as [s0 ev0].
+    destruct H0 as (_ & _ & _ & _ & _ & _ & A).
+    assert (Hev0 : In (k, a) ev0 -> k = 0%Z /\ a = o_ndir (ae_pay_prev e)).
+    { rewrite A. destruct (orgh_fires e); cbn; [intros [H|[]]; inversion H; auto | tauto]. }
+    destruct ((0 <? ae_saat e)%Z && (ae_saat e <=? ae_z e)%Z); cbn [snd]; [|intros H; left; auto].
+    pose proof (af_orgs_spec e s0) as H1. destruct (af_orgs e s0) as [s1 ev1]. cbn zeta in H1.
+    destruct H1 as (_ & _ & _ & _ & _ & _ & B).
+    match goal with |- context [af_min1 e ?d s1] => pose proof (af_min1_spec e d s1) as H2; pose proof (auto_n_R (ae_ndem1 e) (sum_first 3 (match ae_c1 e with [] => [] | _ :: r => as_c10 s1 :: r end))) as N1; destruct (af_min1 e d s1) as [s2 ev2] end.
+    destruct H2 as [_ C].
+    match goal with |- context [af_minn 2 e ?n ?d s2] => pose proof (af_minn_spec 2 e n d s2) as H3; destruct (af_minn 2 e n d s2) as [s3 ev3] end.
+    destruct H3 as [_ D].
+    match goal with |- context [af_minn 3 e ?n ?d s3] => pose proof (af_minn_spec 3 e n d s3) as H4; destruct (af_minn 3 e n d s3) as [s4 ev4] end.
+    destruct H4 as [_ E]. cbn [snd].
+    intros Hin. repeat (apply in_app_or in Hin; destruct Hin as [Hin|Hin]).
+    - left; auto.
+    - right; left. rewrite B in Hin. destruct (ae_cur_s e && _); cbn in Hin; [destruct Hin as [H|[]]; inversion H; auto | tauto].
+    - right; right. destruct C as [(-> & _)|(-> & _)]; cbn in Hin; [tauto|]. destruct Hin as [H|[]]. inversion H; subst.
+      split; [apply N1|]. eexists. split; [reflexivity | lia].
+    - right; right. destruct D as [(-> & _)|(-> & _)]; cbn in Hin; [tauto|]. destruct Hin as [H|[]]. inversion H; subst.
+      split; [apply auto_n_R|]. eexists. split; [reflexivity | lia].
+    - right; right. destruct E as [(-> & _)|(-> & _)]; cbn in Hin; [tauto|]. destruct Hin as [H|[]]. inversion H; subst.
+      split; [apply auto_n_R|]. eexists. split; [reflexivity | lia].
+  Qed.
+End AutoFertR.
+
+(* organic fertiliser "H": applied exactly once, ORGDOY days after the harvest — when ORGDOY >= 1 and the next
+   entry is still current on that day; with ORGDOY = 0 the date is the harvest day itself, which has passed *)
+Lemma orgh_days_closed t : forall fuel z,
+  orgh_days t fuel z = if (z <=? t) && (t <? z + Z.of_nat fuel) then [t] else [].
+Proof.
+  induction fuel as [|fuel IH]; intros z; cbn [orgh_days].
+  - destruct (z <=? t) eqn:A; destruct (t <? z + Z.of_nat 0) eqn:B; cbn [andb]; try reflexivity.
+    apply Z.leb_le in A. apply Z.ltb_lt in B. lia.
+  - rewrite IH. destruct (z =? t) eqn:E; [apply Z.eqb_eq in E | apply Z.eqb_neq in E].
+    + subst. assert (t <=? t = true) as -> by (apply Z.leb_le; lia).
+      assert (t <? t + Z.of_nat (S fuel) = true) as -> by (apply Z.ltb_lt; lia).
+      assert (t + 1 <=? t = false) as -> by (apply Z.leb_gt; lia). reflexivity.
+    + cbn [app]. destruct (z <=? t) eqn:A; destruct (z + 1 <=? t) eqn:A';
+        destruct (t <? z + 1 + Z.of_nat fuel) eqn:B; destruct (t <? z + Z.of_nat (S fuel)) eqn:B'; cbn [andb]; try reflexivity;
+        try apply Z.leb_le in A; try apply Z.leb_gt in A; try apply Z.leb_le in A'; try apply Z.leb_gt in A';
+        try apply Z.ltb_lt in B; try apply Z.ltb_ge in B; try apply Z.ltb_lt in B'; try apply Z.ltb_ge in B'; lia.
+Qed.
+
+Lemma orgh_exactly_once (h d : Z) (fuel : nat) :
+  orgh_days (h + d) fuel (h + 1) = if (1 <=? d) && (d <=? Z.of_nat fuel) then [h + d] else [].
+Proof.
+  rewrite orgh_days_closed.
+  destruct (1 <=? d) eqn:A; destruct (d <=? Z.of_nat fuel) eqn:B;
+    destruct (h + 1 <=? h + d) eqn:A'; destruct (h + d <? h + 1 + Z.of_nat fuel) eqn:B'; cbn [andb]; try reflexivity;
+    try apply Z.leb_le in A; try apply Z.leb_gt in A; try apply Z.leb_le in B; try apply Z.leb_gt in B;
+    try apply Z.leb_le in A'; try apply Z.leb_gt in A'; try apply Z.ltb_lt in B'; try apply Z.ltb_ge in B'; lia.
+Qed.
+
+(* the crop-skip branch: the cursor passes over the next entry exactly when its sowing window has already ended on
+   the harvest day, automatic sowing is on and the harvested entry carries organic fertiliser "H" *)
+Lemma harvest_cursor_rule z k org_h orgdoy saat2 automan zt :
+  let '(k', zt', skipped) := harvest_cursor z k org_h orgdoy saat2 automan zt in
+  zt' = (if org_h k then z + orgdoy k else zt) /\
+  (skipped = true <-> (saat2 (k + 1) <= z /\ automan = true /\ org_h k = true)) /\
+  k' = (if skipped then k + 2 else k + 1).
+Proof.
+  unfold harvest_cursor. replace (k + 1 - 1) with k by lia.
+  destruct (saat2 (k + 1) <=? z) eqn:A; destruct automan; destruct (org_h k) eqn:C; cbn [andb];
+    try apply Z.leb_le in A; try apply Z.leb_gt in A;
+    (split; [reflexivity|]; split; [|lia]); split; intros H; try discriminate; try tauto;
+    destruct H as (H1 & H2 & H3); try discriminate; lia.
+Qed.
+
+(* packaged: the first-day theorems instantiated with the modelled conditions on a sequence of daily states *)
+Lemma sow_first_day_state (env : Z -> sow_env R) saat1 saat2 prev : forall fuel z,
+  0 < z -> 0 < saat1 -> saat1 <= saat2 -> z <= saat2 -> saat2 < z + Z.of_nat fuel ->
+  let s := sow_loop (fun y => sow_cond (env y)) saat1 saat2 prev fuel z 0 in
+  let lo := Z.max z saat1 in
+  lo <= s <= saat2 /\
+  (forall y, lo <= y < s -> ~ (sow_cond (env y) = true /\ prev + 4 < y)) /\
+  (s < saat2 -> sow_cond (env s) = true /\ prev + 4 < s).
+Proof. exact (sow_loop_first (fun y => sow_cond (env y)) saat1 saat2 prev). Qed.
+
+Lemma harvest_first_day_state (env : Z -> harv_env R) : forall fuel z e2,
+  0 < z -> z <= e2 - 1 -> e2 - 1 < z + Z.of_nat fuel ->
+  let '(e, e2') := harvest_loop (fun y => harvest_cond (env y)) fuel z 0 e2 in
+  z <= e <= e2 /\ (forall y, z <= y < e -> y <= e2 - 1 -> harvest_cond (env y) = false) /\
+  (e < e2 -> harvest_cond (env e) = true) /\ e2' = (if e <? e2 then e else e2).
+Proof. exact (harvest_loop_first (fun y => harvest_cond (env y))). Qed.
